@@ -310,11 +310,12 @@ type Flags struct {
 	FailFile   string
 	Verbose    bool
 	Debug      bool
+	Short      bool // go test -short: rapid then runs fewer checks and shorter state machines
 }
 
 func (f Flags) String() string {
-	return fmt.Sprintf("checks=%d steps=%d seed=%d shrinktime=%v nofailfile=%v failfile=%q v=%v debug=%v",
-		f.Checks, f.Steps, f.Seed, f.ShrinkTime, f.NoFailFile, f.FailFile, f.Verbose, f.Debug)
+	return fmt.Sprintf("checks=%d steps=%d seed=%d shrinktime=%v nofailfile=%v failfile=%q v=%v debug=%v short=%v",
+		f.Checks, f.Steps, f.Seed, f.ShrinkTime, f.NoFailFile, f.FailFile, f.Verbose, f.Debug, f.Short)
 }
 
 func setFlag(name, val string) {
@@ -332,6 +333,7 @@ func (f Flags) Apply() {
 	setFlag("rapid.failfile", f.FailFile)
 	setFlag("rapid.v", fmt.Sprint(f.Verbose))
 	setFlag("rapid.debug", fmt.Sprint(f.Debug))
+	setFlag("test.short", fmt.Sprint(f.Short))
 	setFlag("rapid.log", "false")
 	setFlag("rapid.debugvis", "false")
 }
